@@ -102,7 +102,7 @@ struct LockEngine : Engine {
 	void setup(const Plan &p) override {
 		memset(throw_armed_t, 0, sizeof throw_armed_t);
 		cfg = p.cfg; cs_entries = 0; aged = p.knobs.count("age") != 0 && layout_ok;
-		memset(in_cs, 0, sizeof in_cs); memset(holder, 0, sizeof holder); memset(ticketed, 0, sizeof ticketed); memset(acquiring, -1, sizeof acquiring);
+		memset(in_cs, 0, sizeof in_cs); memset(holder, 0, sizeof holder); memset(ticketed, 0, sizeof ticketed); memset(acquiring, -1, sizeof acquiring); evq = 0; memset(queued_at, 0, sizeof queued_at); memset(loads_since_rmw, 0, sizeof loads_since_rmw); memset(invoked_at, 0, sizeof invoked_at); memset(did_rmw, 0, sizeof did_rmw);
 		for (auto &q : tickets) q.clear();
 		for (int t = 0; t < MAXT; t++) { priv[t] = (char *)obj_alloc(64, 64); for (int s = 0; s < 4; s++) { model[t][s] = Slot(); slots[t][s] = nullptr; } }
 		if (cfg <= CFG_SIMPLE) {
@@ -127,28 +127,33 @@ struct LockEngine : Engine {
 		}
 	}
 
-	// ticket order: the order in which tasks draw their ticket = the order of their first successful atomic read-modify-write
-	// on the lock object inside lock() (plain stores to the lock, e.g. a contention hint, do not count)
+	// Ticket order, judged without knowing which access draws the ticket: a task that is visibly WAITING (it has made at
+	// least two consecutive atomic loads of the lock object after its last read-modify-write, i.e. it spins) has drawn its
+	// ticket. If another task only INVOKES lock() after that moment, its ticket is later, so it must not enter first.
+	uint64_t evq = 0; uint64_t queued_at[MAXT]; int loads_since_rmw[MAXT]; uint64_t invoked_at[MAXT]; bool did_rmw[MAXT];
+	bool in_lock_obj(const void *addr, int i) { return (const char *)addr >= (const char *)locks[i] && (const char *)addr < (const char *)locks[i] + sut_lock_size(ltype); }
 	void on_rmw(int task, const void *addr, size_t n) override {
-		if (cfg > CFG_SIMPLE || task == 0) return;
-		if (ltype != LT_TICKET) return;
-		for (int i = 0; i < nlocks; i++) {
-			if ((const char *)addr >= (const char *)locks[i] && (const char *)addr < (const char *)locks[i] + sut_lock_size(ltype)) {
-				if (acquiring[task] == i && !ticketed[task][i]) { ticketed[task][i] = true; tickets[i].push_back(task); }
-			}
-		}
+		if (cfg > CFG_SIMPLE || task == 0 || ltype != LT_TICKET) return;
+		int i = acquiring[task];
+		if (i >= 0 && in_lock_obj(addr, i)) { loads_since_rmw[task] = 0; queued_at[task] = 0; did_rmw[task] = true; }
+	}
+	void on_access(int task, const void *addr, size_t n, bool write, bool atomic) override {
+		if (cfg > CFG_SIMPLE || task == 0 || ltype != LT_TICKET || !atomic) return;
+		int i = acquiring[task];
+		if (i < 0 || !in_lock_obj(addr, i)) return;
+		if (write) { loads_since_rmw[task] = 0; queued_at[task] = 0; return; } // (the RMW hook re-confirms; a plain atomic store also resets)
+		if (did_rmw[task] && ++loads_since_rmw[task] >= 2 && !queued_at[task]) queued_at[task] = ++evq; // (loads before any RMW of this acquisition are pre-checks, not waiting)
 	}
 
 	struct CsArg { LockEngine *e; int task, lk, n, check; };
 	static void cs_body(void *p) {
 		CsArg *a = (CsArg *)p; LockEngine *e = a->e; int lk = a->lk;
 		if (++e->in_cs[lk] != 1) violation("mutual_exclusion", "task %d entered the critical section of lock %d while task %d is inside", a->task, lk, e->holder[lk]);
-		if (e->ltype == LT_TICKET && e->ticketed[a->task][lk]) { // (an acquisition without any RMW cannot be placed in the order: not judged)
-			if (e->tickets[lk].empty() || e->tickets[lk].front() != a->task)
-				violation("ticket_order", "task %d acquired ticket lock %d but the oldest ticket belongs to task %d", a->task, lk, e->tickets[lk].empty() ? 0 : e->tickets[lk].front());
-			e->tickets[lk].pop_front(); e->ticketed[a->task][lk] = false;
+		if (e->ltype == LT_TICKET) {
+			for (int t = 1; t < MAXT; t++) if (t != a->task && e->acquiring[t] == lk && e->queued_at[t] && e->queued_at[t] < e->invoked_at[a->task])
+				violation("ticket_order", "task %d acquired ticket lock %d although task %d was already spinning for it (with its ticket drawn) before task %d even called lock()", a->task, lk, t, a->task);
 		}
-		e->acquiring[a->task] = -1;
+		e->acquiring[a->task] = -1; e->queued_at[a->task] = 0; e->loads_since_rmw[a->task] = 0;
 		if (e->holder[lk] && e->holder[lk] != a->task) probe(P_handover);
 		e->holder[lk] = a->task;
 		e->cs_entries++; probe(P_cs);
@@ -268,7 +273,7 @@ struct LockEngine : Engine {
 			int lk = (int)(o.a[0] % nlocks);
 			CsArg a{this, me, lk, (int)o.a[1], (int)o.a[3]};
 			if (holder[lk] > 0 && holder[lk] != me) probe(P_contended);
-			acquiring[me] = lk;
+			acquiring[me] = lk; invoked_at[me] = ++evq; queued_at[me] = 0; loads_since_rmw[me] = 0; did_rmw[me] = false;
 			if (o.a[2]) sut_guarded(ltype, locks[lk], cs_body, &a);
 			else { sut_lock(ltype, locks[lk]); cs_body(&a); sut_unlock(ltype, locks[lk]); }
 			break; }
